@@ -9,8 +9,8 @@ PID = 'C04'
 STATS = G.STATS
 KIND = {'curve': 'c', 'surface': 's', 'volume': 'v'}
 PARTIAL = [
-    "volumes: the Lean shape-preservation theorem is proved for curves (function level, sequences) and for surfaces in both directions; for volumes the per-direction application is in the model and compared with the code, but the lifting theorem is not stated",
     "the tie between the list program A5.1 (`temp` triangle with in-place updates, edge writes) and the model's index-by-index output is the correspondence, not a Lean theorem",
+    "volumes: shape preservation is proved for each of the three directions (given spans, linear-search spans for every parameter triple, whole homogeneous point hence its projection); sequences of insertions and several directions in one call (`insertKnot` fold) are proved for curves only – for surfaces / volumes each step is covered by the per-direction theorem but the induction over the request list is not written",
 ]
 
 
